@@ -67,7 +67,8 @@ TMsg == /\ Rec[l].e = "msg"
         /\ UNCHANGED <<cfg, sizes, q, got, last>>
 
 TDone == /\ Rec[l].e = "done"
-         /\ \A i \in 1..N : sizes[i] <= cfg.B => Covered(sent, i)   \* EveryFittingBlockSent
+         \* EveryFittingBlockSent (the Impl layer may skip a whole batch, see LostOnlyInSkipped)
+         /\ (Mode = "impl" \/ \A i \in 1..N : sizes[i] <= cfg.B => Covered(sent, i))
          /\ UNCHANGED <<cfg, sizes, q, got, last, sent>>
 
 \* ---- cert segments
